@@ -164,3 +164,82 @@ def read_itp_plain(path):
             else:
                 inter.setdefault(section, []).append((tok, guard))
     return dict(name=name, nrexcl=nrexcl, atoms=atoms, inter=inter)
+
+
+def run_gen_params(workdir, ff_texts, graph=None, seq=None, seq_file_text=None, mods=None, dsdna=False,
+                   name="mol", outname="out.itp"):
+    """Program-level run.  ff_texts = [(filename, text)].  Returns dict(exc, logs, itp_path, captured, missing_warnings)"""
+    import vermouth.gmx.itp as vitp
+    from polyply.src import gen_itp
+    paths = []
+    for fname, text in ff_texts:
+        p = workdir / fname
+        p.write_text(text)
+        paths.append(p)
+    seq_file = None
+    if graph is not None:
+        seq_file = workdir / "seq.json"
+        write_json_graph(seq_file, graph)
+    elif seq_file_text is not None:
+        seq_file = workdir / seq_file_text[0]
+        seq_file.write_text(seq_file_text[1])
+    out = workdir / outname
+    captured = {}
+    orig = vitp.write_molecule_itp
+
+    def spy(molecule, outfile, *a, **k):
+        captured["mol"] = mol_digest(molecule)
+        return orig(molecule, outfile, *a, **k)
+    vitp.write_molecule_itp = spy
+    exc = None
+    argv = sys.argv
+    sys.argv = ["polyply", "gen_params"]
+    try:
+        with capture_logs() as logs, contextlib.redirect_stdout(io.StringIO()):
+            try:
+                gen_itp.gen_params(name=name, outpath=out, inpath=paths, lib=None, seq=seq, seq_file=seq_file,
+                                   dsdna=dsdna, mods=mods or [])
+            except Exception as e:  # noqa
+                exc = e
+    finally:
+        vitp.write_molecule_itp = orig
+        sys.argv = argv
+        pending = drain_deferred()
+    return dict(exc=exc, logs=logs.records, itp_path=out, captured=captured.get("mol"), pending_after=pending)
+
+
+def drain_deferred():
+    """Empties the queue of vermouth's singleton DeferredFileWriter (a failed run leaves its temp file queued) and
+    returns the destinations that were still pending."""
+    from vermouth.file_writer import DeferredFileWriter
+    dfw = DeferredFileWriter()
+    pending = []
+    while dfw.open_files:
+        tmp_path, final_path, mode = dfw.open_files.popleft()
+        pending.append(str(final_path))
+        try:
+            os.remove(tmp_path)
+        except OSError:
+            pass
+    return pending
+
+
+TOP_TEMPLATE = """[ defaults ]
+1 1 no 1.0 1.0
+[ atomtypes ]
+{atypes}
+#include "{itp}"
+[ system ]
+verif
+[ molecules ]
+{name} 1
+"""
+
+
+def read_back(workdir, itp_name, atypes, name="mol"):
+    from polyply.src.topology import Topology
+    lines = "\n".join(f"{t} 1.0 0.0 A 0.1 0.1" for t in sorted(atypes))
+    top = workdir / "sys.top"
+    top.write_text(TOP_TEMPLATE.format(atypes=lines, itp=itp_name, name=name))
+    topology = Topology.from_gmx_topfile(top, "verif")
+    return topology
